@@ -163,6 +163,9 @@ type c18Subject struct {
 	keys   []keyPair
 	sparse bool // empty component container / optional claims absent
 	reps   int  // how often each call is repeated (default 2)
+	// altWire: another (also invalid) token of the same profile whose first
+	// offending component differs; decoded INTO the subject in the epilogue
+	altWire []byte
 }
 
 func drawC18Subject(t *rapid.T) c18Subject {
@@ -225,7 +228,11 @@ func drawC18Subject(t *rapid.T) c18Subject {
 			}
 			c = lit
 		}
-		return c18Subject{desc: kind, claims: c, sparse: true, reps: 6}
+		m2 := m.Clone()
+		for i, j := 0, len(m2.Comps)-1; i < j; i, j = i+1, j-1 {
+			m2.Comps[i], m2.Comps[j] = m2.Comps[j], m2.Comps[i]
+		}
+		return c18Subject{desc: kind, claims: c, sparse: true, reps: 6, altWire: m2.WireBytes()}
 	case "extension-p1-ptr-receiver":
 		// a profile-1 derived extension with pointer-receiver codec methods;
 		// in the no-measurements form the (empty) component container may
@@ -395,8 +402,8 @@ func drawC18Subject(t *rapid.T) c18Subject {
 }
 
 func TestC18_ReadOnly(t *testing.T) {
-	st := NewStats("C18", "TestC18_ReadOnly", "rapid: a subject (claims-set of either profile as struct literal / via setters / decoded from CBOR with permuted and extra keys / decoded from JSON / an extension-profile instance; a claims-set with 8..24 software components of which up to four are broken in different ways; valid or with rule deviations; or an Evidence, decoded or freshly signed) and a random sequence of 1..30 read-side calls {Validate, each of the 10 getters, all getters, Encode CBOR/JSON, validate-and-encode CBOR/JSON, component-container Validate/Values/IsEmpty, Evidence.MarshalJSON / GetInstanceID / GetImplementationID / Verify with right, wrong, other-algorithm and nil key}. Oracle: the reflect-based deep fingerprint of everything a caller can reach (exported fields, pointers, slices, the component container) is identical before and after every call; every call repeated immediately returns the identical result; Observe (all getters + validity + both encodings) is identical at the end; Verify outcomes are stable; byte slices returned by earlier encode calls keep their content while other claims-sets are encoded in between. Non-trivial = sequence contains an encode or validate call on a set with an empty component container or an absent optional claim; distinct = subject kind + class of subject + op sequence")
-	st.Require = []string{"literal", "decoded-cbor", "decoded-json", "setters", "evidence-decoded", "evidence-signed", "extension", "extension-ptr-embedded", "extension-p1-ptr-receiver", "long-component-list", "sparse"}
+	st := NewStats("C18", "TestC18_ReadOnly", "rapid: a subject (claims-set of either profile as struct literal / via setters / decoded from CBOR with permuted and extra keys / decoded from JSON / an extension-profile instance; a claims-set with 8..24 software components of which up to four are broken in different ways; valid or with rule deviations; or an Evidence, decoded or freshly signed) and a random sequence of 1..30 read-side calls {Validate, each of the 10 getters, all getters, Encode CBOR/JSON, validate-and-encode CBOR/JSON, component-container Validate/Values/IsEmpty, Evidence.MarshalJSON / GetInstanceID / GetImplementationID / Verify with right, wrong, other-algorithm and nil key}. Oracle: the reflect-based deep fingerprint of everything a caller can reach (exported fields, pointers, slices, the component container) is identical before and after every call; every call repeated immediately returns the identical result; Observe (all getters + validity + both encodings) is identical at the end; Verify outcomes are stable; byte slices returned by earlier encode calls keep their content while other claims-sets are encoded in between; error values returned by earlier reads keep their text and class when the object is later given other content and read again; after the sequence an Evidence still accepts SetClaims of another valid set. Non-trivial = sequence contains an encode or validate call on a set with an empty component container or an absent optional claim; distinct = subject kind + class of subject + op sequence")
+	st.Require = []string{"literal", "decoded-cbor", "decoded-json", "setters", "evidence-decoded", "evidence-signed", "extension", "extension-ptr-embedded", "extension-p1-ptr-receiver", "long-component-list", "sparse", "held-errors"}
 	defer st.Flush(t)
 	withExtProfiles(func() {
 		rapid.Check(t, func(t *rapid.T) {
@@ -513,6 +520,86 @@ func TestC18_ReadOnly(t *testing.T) {
 			cls := []string{s.desc}
 			if s.sparse {
 				cls = append(cls, "sparse")
+			}
+			// epilogue 1: a result handed out stays what it was. The ERROR
+			// values the reads return are held; the claims object is then given
+			// other content through its own decoder (a write) and read again:
+			// the errors returned BEFORE still say what they said.
+			if s.altWire != nil {
+				type cu interface{ UnmarshalCBOR([]byte) error }
+				if dec, ok := s.claims.(cu); ok {
+					collect := func() []error {
+						e1 := s.claims.Validate()
+						_, e2 := s.claims.GetSoftwareComponents()
+						var e3, e4 error
+						if sc := anySwContainer(s.claims); sc != nil && !reflect.ValueOf(sc).IsNil() {
+							e3 = sc.Validate()
+							_, e4 = sc.Values()
+						}
+						return []error{e1, e2, e3, e4}
+					}
+					say := func(e error) string {
+						if e == nil {
+							return "ok"
+						}
+						return e.Error() + " " + clsSetString(classSet(e))
+					}
+					held := collect()
+					var texts []string
+					for _, e := range held {
+						texts = append(texts, say(e))
+					}
+					// (a) the caller repairs the first offending component in
+					// place, through the exported fields of the component
+					// object it built; the next read then stumbles over the
+					// next offender
+					repaired := false
+					if sc, ok := anySwContainer(s.claims).(*swContainer); ok && sc != nil {
+						if vs, ok := containerValues(sc); ok {
+							for _, v := range vs {
+								if v == nil {
+									break // a null entry cannot be repaired through a pointer
+								}
+								if v.Validate() != nil {
+									mv, si := bytes.Repeat([]byte{0x5a}, 32), bytes.Repeat([]byte{0xa5}, 32)
+									v.MeasurementValue, v.SignerID = &mv, &si
+									repaired = true
+									break
+								}
+							}
+						}
+					}
+					if repaired {
+						_ = collect()
+						for i, e := range held {
+							if now := say(e); now != texts[i] {
+								t.Fatalf("C18 violated (%s): an error value returned by an earlier read (#%d of Validate / GetSoftwareComponents / container Validate / Values) was rewritten by a later read, after the caller had repaired the component it complained about:\n  it said:  %s\n  it says:  %s", s.desc, i, texts[i], now)
+							}
+						}
+						held = collect()
+						texts = texts[:0]
+						for _, e := range held {
+							texts = append(texts, say(e))
+						}
+					}
+					// (b) the object decodes another token
+					if dec.UnmarshalCBOR(s.altWire) == nil {
+						_ = collect()
+						for i, e := range held {
+							if now := say(e); now != texts[i] {
+								t.Fatalf("C18 violated (%s): an error value returned by an earlier read (#%d of Validate / GetSoftwareComponents / container Validate / Values) was rewritten by a later read of the same object:\n  it said:  %s\n  it says:  %s", s.desc, i, texts[i], now)
+							}
+						}
+						cls = append(cls, "held-errors")
+					}
+				}
+			}
+			// epilogue 2: after all those reads (successful verifications
+			// among them) the Evidence still takes another valid claims-set
+			if s.ev != nil && other != nil {
+				if err := s.ev.SetClaims(other); err != nil || s.ev.Claims != other {
+					t.Fatalf("C18 violated (%s): after a sequence of read-only calls (Verify among them) the Evidence refuses SetClaims of another valid claims-set: %v\n  sequence: %v", s.desc, err, seq)
+				}
 			}
 			if internalFP(target) != int0 {
 				cls = append(cls, "unexported-state-changed(no-verdict)")
